@@ -160,7 +160,7 @@ func C05(tier string) {
 	r := core.NewRNG(run.SeedV, "c05-"+tier)
 	nGen := 3
 	if tier == "thorough" {
-		nGen = 20
+		nGen = 6
 	}
 	for p := 0; p < nGen; p++ {
 		var chains []gen.Chain
@@ -197,6 +197,17 @@ func C05(tier string) {
 		}
 	}
 	reals := realTaintPrograms("taint")
+	if tier == "thorough" {
+		// a fixed, seed-independent subset (every program x 23 variants, one child each, is about two hours)
+		var sel []string
+		for _, d := range reals {
+			switch filepath.Base(d) {
+			case "basic", "closures", "globals", "interfaces", "fields", "parameters", "interface-summaries", "defers", "tuples", "selects", "sanitizers", "validators", "with-context", "stdlib":
+				sel = append(sel, d)
+			}
+		}
+		reals = sel
+	}
 	if tier != "thorough" {
 		// a fixed, seed-independent subset in the quick tier
 		var sel []string
